@@ -14,9 +14,9 @@ package main
 //         returned, i.e. is not `defer func(){}()`, `go func(){}()` or an immediately
 //         invoked literal), an assignment / inc-dec / range-assign whose root identifier
 //         is a variable (parameter, named result, local) of the enclosing FuncDecl declared
-//         outside every enclosing FuncLit – in *construction-time* functions, i.e. functions
-//         that are not themselves executed once per run (see c09PerRun*).  Such a variable
-//         exists once per compiled object, the closure runs once per run ⇒ shared write.
+//         outside every enclosing FuncLit – in every function of the scanned packages.  In a
+//         constructor such a variable exists once per compiled object while the closure runs
+//         once per run ⇒ shared write.
 //     (b) receiver writes: in every method reachable (by name) from runner.run, an
 //         assignment through the method's receiver (r.x = …, r.x[k] = …, r.x.y = …, *r = …)
 //         unless the receiver type is a per-run type (allocated by run itself: see
@@ -712,11 +712,13 @@ func factsC09(r *Repo) []Fact {
 			fmt.Fprintln(os.Stderr, "reachable from runner.run:", len(names), names)
 		}
 		out = append(out, natFact("reachableFromRun", len(names), "compose: FuncDecls reachable by name from runner.run/invoke/transform"))
-		// rule (a) in compose: construction-time functions = not reachable from run
+		// rule (a) in compose: EVERY FuncDecl.  (In a function that itself runs once per call
+		// the captured variable is per call, so a hit there would be a false positive to be
+		// allow-listed with that reason; on the current tree there is none, so no function is
+		// exempted – exempting "reachable from run" would exempt constructors that happen to be
+		// called by name from run-time code, e.g. runner.toComposableRunnable.)
+		_ = perRun
 		for _, fn := range compose.p.Funcs() {
-			if perRun[fn.Decl] {
-				continue
-			}
 			writes = append(writes, compose.capturedWrites(fn.Decl, fn.File)...)
 		}
 	}
